@@ -59,6 +59,7 @@ struct ItemDir {
     name: String,
     derive: Option<String>,
     substs: Vec<(String, String)>,
+    attrs: Vec<String>,
     tpl_line: usize,
     tpl_file: String,
 }
@@ -125,9 +126,14 @@ fn parse_template(path: &Path, nodes: &mut Vec<Node>) {
                 }
                 i += 1;
                 // optional following @@isubst lines
-                while i < lines.len() && lines[i].trim_start().starts_with("@@isubst") {
-                    let r = lines[i].trim_start()["@@isubst".len()..].trim();
-                    d.substs.push(parse_subst(r, &ctx));
+                while i < lines.len() && (lines[i].trim_start().starts_with("@@isubst") || lines[i].trim_start().starts_with("@@iattr")) {
+                    let t = lines[i].trim_start();
+                    if t.starts_with("@@isubst") {
+                        let r = t["@@isubst".len()..].trim();
+                        d.substs.push(parse_subst(r, &ctx));
+                    } else {
+                        d.attrs.push(t["@@iattr".len()..].trim().to_string());
+                    }
                     i += 1;
                 }
                 nodes.push(Node::Item(d));
@@ -1051,7 +1057,11 @@ fn main() {
                 let text = squeeze_blank_lines(&text);
                 let l0 = cur_line(&output);
                 output.push_str(&format!("// vx:item {} {} (src lines {}-{})\n", d.file, d.name, line_of(&src.text, r.start), line_of(&src.text, r.end)));
-                output.push_str(&text);
+                for a in &d.attrs {
+                    output.push_str(a);
+                    output.push('\n');
+                }
+                output.push_str(text.trim_start());
                 output.push('\n');
                 item_maps.push(serde_json::json!({
                     "name": d.name, "file": d.file,
